@@ -52,4 +52,10 @@ def invD (A : Mat) : Mat := (inv A).getD []
 
 def isInverse (A B : Mat) : Bool := matMul A B == ident A.length
 
+def isSquare (n : Nat) (A : Mat) : Bool := A.length == n && A.all (·.length == n)
+
+/-- the certificate the driver checks for every fitted per-arm model: both matrices are `n × n`
+    and `A · B = I` exactly -/
+def isInverseCert (A B : Mat) : Bool := isSquare A.length A && isSquare A.length B && isInverse A B
+
 end Mab
